@@ -17,7 +17,10 @@ import (
 func (r *Report) withOnly(as string, keep func(o Obligation) bool, fn func()) {
 	o0, v0 := len(r.Obls), len(r.Viol)
 	fl := len(r.floors)
+	// a whole rule set may be run for one clause: what it says about itself belongs to its own property
+	expl, nd, asm := r.Explanation, r.NotDecided, r.Assumptions
 	fn()
+	r.Explanation, r.NotDecided, r.Assumptions = expl, nd, asm
 	r.floors = r.floors[:fl]
 	kept := r.Obls[:o0:o0]
 	keepKey := map[string]bool{}
@@ -59,6 +62,8 @@ var sharedObjectTypes = map[string]bool{"UP4": true, "bess": true, "IPPool": tru
 func round6(w *World, r *Report) {
 	switch r.Prop {
 	case "C02":
+		ruleNoRelock(w, r, "R02.15")
+		r.withOnly("R02.16", func(o Obligation) bool { return o.Rule == "R10.5" && strings.Contains(o.Construct, "release") }, func() { ruleC10Triggers(w, r) })
 		// R02.12 a later response is addressed with the CP SEID the store holds: an accepted request has stored
 		// the session (C03 R03.6: the store is written on every accepting path and after the datapath writes)
 		r.withOnly("R02.12", onlyRule("R03.6"), func() { ruleC03Handlers(w, r) })
@@ -66,37 +71,45 @@ func round6(w *World, r *Report) {
 		ruleFirstMessageAnyType(w, r, "C02", "R02.13")
 		rulePeerKeyIsSourceAddr(w, r, "C02", "R02.14")
 	case "C03":
+		ruleCommandMatchesModule(w, r, "C03", "R03.19")
 		// R03.17 every QER has one uplink and one downlink entry with the gate its own direction's status gives
 		r.withOnly("R03.17", onlyRule("R09.2"), func() { ruleC09(w, r) })
 		r.Explanation += " R03.17 gate decision table per direction of the BESS QER entries (C09 R09.2 re-filed);"
 		ruleWidthLimitIsExclusiveOf100(w, r, "C03", "R03.18")
 	case "C04":
+		r.withRule("R04.20", func() { ruleC05Complete(w, r) })
 		r.withRule("R04.16", func() { ruleC07EverySessionsEntry(w, r) })
 		r.withRule("R04.17", func() { ruleC09MeterArray(w, r) })
 		r.withRule("R04.18", func() { ruleC06SeidEntropy(w, r) })
 		ruleOwnReferenceDroppedFirst(w, r, "C04", "R04.19")
 		r.Explanation += " R04.16 the sessions entry of every PDR is part of its batch (C07 R07.11); R04.17 meters are programmed and reset in the array of their kind (C09 R09.9); R04.18 UP4 state is keyed by F-SEID: two associations never draw the same SEID sequence (C06 R06.7);"
 	case "C06":
+		ruleNoRelock(w, r, "R06.12")
 		r.withOnly("R06.9", onlyRule("R01.J5"), func() { ruleC01Secondary(w, r) })
 		ruleLocalSEIDArgs(w, r, "C06", "R06.10")
 		ruleReleaseOncePerSession(w, r, "C06", "R06.11")
 		r.Explanation += " R06.9 the allocation mark of a stored PDR is set exactly where the pool allocated (C01 R01.J5); R06.10 the pool is keyed by the UP SEID at every parse site (C03 R03.16); R06.11 the session-end release calls DeallocIP at most once per session;"
 	case "C07":
+		r.withOnly("R07.15", onlyRule("R05.2"), func() { ruleC05(w, r) })
+		r.withOnly("R07.16", func(o Obligation) bool { return o.Rule == "R02.1" && strings.Contains(o.Func, "Establishment") }, func() { ruleC02(w, r) })
 		r.withOnly("R07.14", func(o Obligation) bool { return o.Rule == "R02.4" && strings.Contains(o.Construct, "F-SEID") }, func() {
 			ruleC02AcceptedStandalone(w, r)
 		})
 		r.Explanation += " R07.14 the UP F-SEID reported in the accepted establishment is session.localSEID (C02 R02.4);"
 	case "C08":
+		r.withRule("R08.13", func() { ruleC17DoneOnce(w, r) })
 		r.withRule("R08.10", func() { ruleC03Scratch(w, r) })
 		r.Explanation += " R08.10 every Create/Update PDR is parsed into a value of its own (no filter field carried over from the previous IE; C03 R03.10);"
 		rulePortsKeptForEveryProtocol(w, r, "C08", "R08.11")
 		ruleNewAppPFDIsFresh(w, r, "C08", "R08.12")
 	case "C10":
+		ruleNoRelock(w, r, "R10.18")
 		r.withOnly("R10.16", onlyRule("R05.2"), func() { ruleC05(w, r) })
 		ruleOnlyReadDeadline(w, r, "C10", "R10.17")
 		ruleHandledOnReader(w, r, "C10", "R10.15")
 		r.Explanation += " R10.15 the reader handles each message itself (a release cannot overtake a request in flight on the same association); R10.16 every session-ending site removes the datapath entries unconditionally and releases what the session holds (C05 R05.2); R10.17 only the reader's read deadline decides that a peer went silent (C02 R02.11);"
 	case "C11":
+		r.withOnly("R11.18", func(o Obligation) bool { return o.Rule == "R14.5" && strings.Contains(o.Construct, "buffer created by this call") }, func() { ruleC14(w, r) })
 		// R11.15: a panic in code that operates on an object shared by every association ends all of them
 		{
 			all := receivePathFuncs(w, "C11")
@@ -124,35 +137,44 @@ func round6(w *World, r *Report) {
 		ruleNoCloseOfWorkerChannel(w, r, "R11.17")
 		r.Explanation += " R11.15 crash obligations (index, nil, type assertion, exit, division) of every method of a shared object reachable from the receive path (C01 R01.1 restricted to UP4, bess, IPPool, FTEIDGenerator, P4rtClient, P4rtTranslator, metrics.Service, upf); R11.16 an ending association returns what it holds in the shared pools on every path (C05 R05.2);"
 	case "C13":
+		r.withRule("R13.15", func() { ruleC04Shared(w, r) })
+		r.withOnly("R13.16", onlyRule("R03.6"), func() { ruleC03Handlers(w, r) })
 		r.withRule("R13.12", func() { ruleC07SEID(w, r) })
 		r.withRule("R13.13", func() { ruleC05Complete(w, r) })
 		ruleApplyActionFirstOctet(w, r, "C13", "R13.14")
 		r.Explanation += " R13.12 the limiter's key is the UP SEID: it is drawn from the connection's random generator and tested against the store (C07 R07.5); R13.13 the session copy the report handler reads holds every rule (C05 R05.6); R13.14 the apply-action flags are those of the IE's first octet;"
 	case "C14":
+		r.withOnly("R14.14", onlyRule("R15.4"), func() { ruleC15(w, r) })
 		ruleDeadlinePerOp(w, r, "C14", "R14.12", []string{"pfcpiface.(*bess).endMarkerSendLoop"})
 		ruleSndemIndependentOfOrder(w, r, "C14", "R14.13")
 		r.Explanation += " R14.12 a deadline on the end-marker socket is armed per write, never once before the loop; R14.13 the send-end-marker flag depends on the SNDEM bit alone, not on which IEs were seen before it;"
 	case "C15":
+		r.withRule("R15.11", func() { ruleC06SeidEntropy(w, r) })
+		ruleReleaseOncePerSession(w, r, "C15", "R15.12")
 		r.withOnly("R15.8", onlyRule("R03.6"), func() { ruleC03Handlers(w, r) })
 		r.withRule("R15.9", func() { ruleC05Complete(w, r) })
 		ruleOwnReferenceDroppedFirst(w, r, "C15", "R15.10")
 		r.Explanation += " R15.8 a request one of whose datapath writes was rejected is never accepted, the store is written after both writes (C03 R03.6); R15.9 a removed rule is handed to the datapath as a copy of itself (C05 R05.6);"
 	case "C16":
+		r.withOnly("R16.14", func(o Obligation) bool { return o.Rule == "R19.3" && strings.Contains(o.Func, "AddSliceInfo") }, func() { ruleC19(w, r) })
 		r.withOnly("R16.12", func(o Obligation) bool {
 			return o.Rule == "R15.1" && !strings.Contains(o.Construct, "new PDRs get a counter cell")
 		}, func() { ruleC15(w, r) })
 		r.withRule("R16.13", func() { ruleC09MeterArray(w, r) })
 		r.Explanation += " R16.12 only values that came out of a pool go back into it (indices stay inside the array the pool was sized for; C15 R15.1); R16.13 a meter entry is written to the array its cell index belongs to (C09 R09.9);"
 	case "C01":
+		r.withOnly("R01.2.UNLOCK", onlyRule("R11.2"), func() { ruleC11(w, r) })
 		funcs := receivePathFuncs(w, "C01")
 		ruleTickerIntervalPositive(w, r, "R01.1.TICK", funcs)
 		ruleNoCloseOfWorkerChannel(w, r, "R01.1.CLOSE")
 		r.Explanation += " R01.1.TICK no ticker interval is computed as a difference with elapsed time (NewTicker/Reset panic on ≤ 0); R01.1.CLOSE a completion channel that started workers send on is never closed by the function that waits for them;"
 	case "C09":
+		r.withRule("R09.15", func() { ruleC05Complete(w, r) })
 		ruleStoredPdrSharesQerList(w, r, "C09", "R09.13")
 		ruleOneSessionQerLabel(w, r, "C09", "R09.14")
 		r.Explanation += " R09.13 the stored PDR shares its QER ID list with the PDR that is programmed (MarkSessionQer re-orders in place); R09.14 the session label is written once, outside the search loop;"
 	case "C17":
+		ruleTranslatorBytes(w, r, "C17", "R17.16")
 		ruleOwnReferenceDroppedFirst(w, r, "C17", "R17.14")
 		ruleWidthLimitIsExclusiveOf100(w, r, "C17", "R17.15")
 		r.Explanation += " R17.14 the users of a shared application entry are counted after the caller's own reference was dropped (a repeated delete cannot take another PDR's port-range entry away); R17.15 a range of exactly 100 ports is still expanded;"
@@ -161,9 +183,11 @@ func round6(w *World, r *Report) {
 		ruleEveryPeerParsed(w, r, "C18", "R18.10")
 		r.Explanation += " R18.9 every path of removeComments returns the pattern's ReplaceAll of the input; R18.10 the peer parsed in validateConf's loop is the element of the iteration;"
 	case "C19":
+		ruleNoRelock(w, r, "R19.9")
 		ruleSliceMeterJoinCount(w, r, "C19", "R19.8")
 		r.Explanation += " R19.8 every caller of addSliceMeter joins as many completions as it starts workers;"
 	case "C05":
+		ruleNoRelock(w, r, "R05.23")
 		ruleTeidReleasedUnderItsMark(w, r, "C05", "R05.20")
 		ruleCreateWritesThroughStoredRules(w, r, "C05", "R05.21")
 		ruleCommandMatchesModule(w, r, "C05", "R05.22")
@@ -1360,4 +1384,26 @@ func derivesFromMake(v ssa.Value, mk *ssa.MakeSlice) bool {
 		}
 	}
 	return false
+}
+
+
+// ruleNoRelock: no mutex is acquired again while the same goroutine holds it (directly, through a callee, or
+// through the String()/Error() method of a value that is printed under the lock, whatever the log level: the
+// arguments of a log call are evaluated, and zap formats them, only when the level is enabled — so the handler
+// blocks for ever exactly when the operator turns debug logging on). C01's R01.2.RELOCK over all repo functions.
+func ruleNoRelock(w *World, r *Report, rule string) {
+	funcs := map[*ssa.Function]bool{}
+	for f := range w.allFuncs() {
+		if w.isRepoFunc(f) && !strings.HasPrefix(w.FuncName(f), "test/") {
+			funcs[f] = true
+		}
+	}
+	rl, sites := w.reentrantLocks(funcs)
+	for _, x := range rl {
+		r.bad(rule, w.FuncName(x.fn), "no re-acquisition of "+x.mu.Name()+" while it is held", w.Pos(posNear(x.ins)), "the mutex "+x.mu.Name()+" is held here and acquired again "+x.via+": sync mutexes are not reentrant, the call never returns — the request is never answered and every later request that needs the lock hangs as well")
+	}
+	if len(rl) == 0 {
+		r.ok(rule, "pfcpiface", "no mutex is re-acquired while held (calls and printed values under a lock)", "-", fmt.Sprintf("%d calls / printed values examined under a non-empty lockset", sites))
+	}
+	r.floor(rule+" call sites under a lock", sites, 20)
 }
